@@ -145,4 +145,8 @@ def check(world, tier):
                 e_.ob(ok, "receive-without-%s-test" % name,
                       "after accepting a block the receiver can wait for the next datagram without the %s test: it may never acknowledge a full window / final block" % name,
                       sample={"push": node_str(prog, p), "test": name, "next receive only via the test's continue-edge": ok})
+    # the receiver's "window full" test relies on the Window contract (shared with C18)
+    from . import C18
+    import_clause(world, tier, e_, C18, "C18.add", ("",), "Window::add contract")
+    import_clause(world, tier, e_, C18, "C18.invariant", ("add:", "is_full"), "Window invariant on the receive side")
     return rep
